@@ -16,7 +16,7 @@ RULE = (
     "registrations and removals and with client writes (assign + submit: no event, mirror unchanged) at arbitrary stream "
     "positions; callbacks have every combination of device/vector/element filter "
     "(absent, matching, non-matching) and event type (any, value, state, definition), are plain or coroutine functions - given as a "
-    "function, a functools.partial, a bound method or a callable object -, may raise, "
+    "function, a functools.partial, a bound method, a bound method of an object nothing else refers to, or a callable object -, may raise, "
     "may remove themselves when first called (one-shot), and are removed by id or by criteria. 2-5 callbacks are registered up "
     "front with filters biased towards 'absent' (otherwise a one-shot callback is never followed by another callback matching the "
     "same event). Oracle: a filter-less probe registered first gives the dispatched sequence; per message it must equal the event "
